@@ -1,5 +1,5 @@
 (* Properties_C17.v — C17: file modes are preserved; refusals leave files untouched.  Statements only. *)
-From PatchV Require Import Base Lines Hunk Options Parser World Driver Proofs_World Proofs_Touch.
+From PatchV Require Import Base Lines Hunk Options Parser World Driver Proofs_World Proofs_Touch Locator Formatter Applier LineParser Spec_Locate Spec_Apply Proofs_Conf Proofs_Reapply Proofs_Reverse Proofs_DriverMore.
 
 (* whenever the write of a target succeeds, the file ends with exactly the mode that was to be set after writing (in
    process_section: the new mode of a git header when there is one, else the permission bits the file had), with or
@@ -16,3 +16,82 @@ Theorem refusal_writes_only_rejects : forall o st outf p,
   TP (fun op => exists data, op = OWrite (reject_path o outf) data) (refuse_to_patch o st outf p).
 Proof. exact Proofs_Touch.refusal_writes_only_rejects. Qed.
 Print Assumptions refusal_writes_only_rejects.
+
+(* ---------------------------------------------------------------------------------------------------------------
+   C17 at driver level (process_section, finalize_writes); proofs in Proofs_DriverMore.v, non-vacuity Examples and
+   whole-program vm_compute runs in Properties_DriverMore.v. *)
+(* one git change section and the end of the run: the new content, and the permissions of the mode header when there is one,
+   else those the file had *)
+Theorem git_section_mode : forall o p f A B st s w data mode,
+  plain_options o -> reverse_patch_opt o = false ->
+  pfmt p = FGit -> poper p = OpChange -> prereq p = [] -> old_path p = f -> new_path p = f ->
+  is_symlink_mode (new_mode p) = false ->
+  f <> devnull -> f <> [] -> ~ In 47%N f ->
+  Conforming A B (hunks p) ->
+  (remove_empty_files o <> OBYes \/ lines_bytes (newline_output o) B <> []) ->
+  (Z.of_nat (length A) < MAXZ)%Z ->
+  fault w = None -> deferred_writes st = [] -> deferred_removals st = [] ->
+  lookup (fs w) f = Some (Reg data mode) -> (mode < 4096)%N -> owner_r mode = true -> owner_w mode = true ->
+  split_lines data = A ->
+  exists st1 w1 st2 w2 w3,
+    process_section o st false p s w = (Ok (st1, s), w1) /\ fs w1 = fs w /\
+    finalize_writes o st1 (deferred_writes st1) w1 = (Ok st2, w2) /\
+    finalize_removals (deferred_writes st1) (deferred_removals st1) w2 = (Ok tt, w3) /\
+    lookup (fs w3) f = Some (Reg (lines_bytes (newline_output o) B)
+                                 (if N.eqb (new_mode p) 0 then mode else N.land (new_mode p) 4095)) /\
+    (forall q, q <> f -> lookup (fs w3) q = lookup (fs w) q) /\
+    had_failure st2 = had_failure st /\ events st2 = events st /\ fault w3 = None /\ umask w3 = umask w.
+Proof. exact Proofs_DriverMore.git_section_mode. Qed.
+Print Assumptions git_section_mode.
+
+(* what a later section of the run sees of a file with a write pending: content and permissions of the pending write *)
+Theorem section_git_next : forall o p f X Y st s w d pm ndata nmode,
+  git_options o ->
+  pfmt p = FGit -> poper p = OpChange -> prereq p = [] -> old_path p = f -> new_path p = f ->
+  is_symlink_mode (new_mode (effective o p)) = false ->
+  f <> devnull -> f <> [] -> ~ In 47%N f ->
+  Conforming X Y (hunks (effective o p)) ->
+  (remove_empty_files o <> OBYes \/ lines_bytes (newline_output o) Y <> []) ->
+  (Z.of_nat (length X) < MAXZ)%Z ->
+  find (fun x => str_eqb (d_dest x) f) (rev (deferred_writes st)) = Some d ->
+  d_newname d = false -> d_perm_after d = Some pm -> (pm < 4096)%N ->
+  (N.land pm write_mask <> 0%N \/ read_only o <> ROFail) ->
+  lookup (fs w) f = Some (Reg ndata nmode) ->
+  split_lines (d_data d) = X ->
+  process_section o st false p s w =
+  (Ok (deferring_state st (mkDef (lines_bytes (newline_output o) Y) f false (save_backup o)
+                                 (if N.eqb (N.land pm write_mask) 0 then Some (N.lor pm write_mask) else None)
+                                 (perm_after_of (new_mode (effective o p)) pm)), s), w).
+Proof. exact Proofs_DriverMore.section_git_next. Qed.
+Print Assumptions section_git_next.
+
+(* the series: "new mode" in the first section, none in the second; the second section's deferred write sets the mode of
+   the header again (not the mode on disk while the sections ran), and that is the mode at the end of the run *)
+Theorem git_series_mode : forall o p1 p2 f A0 A1 A2 st s1 s2 w data m0,
+  plain_options o -> reverse_patch_opt o = false ->
+  pfmt p1 = FGit -> poper p1 = OpChange -> prereq p1 = [] -> old_path p1 = f -> new_path p1 = f ->
+  new_mode p1 <> 0%N -> is_symlink_mode (new_mode p1) = false -> owner_w (N.land (new_mode p1) 4095) = true ->
+  pfmt p2 = FGit -> poper p2 = OpChange -> prereq p2 = [] -> old_path p2 = f -> new_path p2 = f ->
+  new_mode p2 = 0%N ->
+  f <> devnull -> f <> [] -> ~ In 47%N f ->
+  Conforming A0 A1 (hunks p1) -> Conforming A1 A2 (hunks p2) ->
+  split_lines (lines_bytes (newline_output o) A1) = A1 ->
+  (remove_empty_files o <> OBYes \/
+   (lines_bytes (newline_output o) A1 <> [] /\ lines_bytes (newline_output o) A2 <> [])) ->
+  (Z.of_nat (length A0) < MAXZ)%Z -> (Z.of_nat (length A1) < MAXZ)%Z ->
+  fault w = None -> deferred_writes st = [] -> deferred_removals st = [] ->
+  lookup (fs w) f = Some (Reg data m0) -> (m0 < 4096)%N -> owner_r m0 = true -> owner_w m0 = true ->
+  split_lines data = A0 ->
+  let pm1 := N.land (new_mode p1) 4095 in
+  exists st1 w1 st2 w2 st3 w3 w4 d1 d2,
+    process_section o st false p1 s1 w = (Ok (st1, s1), w1) /\ fs w1 = fs w /\
+    process_section o st1 false p2 s2 w1 = (Ok (st2, s2), w2) /\ fs w2 = fs w /\
+    deferred_writes st2 = [d1; d2] /\ d_perm_after d1 = Some pm1 /\ d_perm_after d2 = Some pm1 /\
+    finalize_writes o st2 (deferred_writes st2) w2 = (Ok st3, w3) /\
+    finalize_removals (deferred_writes st2) (deferred_removals st2) w3 = (Ok tt, w4) /\
+    lookup (fs w4) f = Some (Reg (lines_bytes (newline_output o) A2) pm1) /\
+    (forall q, q <> f -> lookup (fs w4) q = lookup (fs w) q) /\
+    had_failure st3 = had_failure st /\ events st3 = events st /\ fault w4 = None /\ umask w4 = umask w.
+Proof. exact Proofs_DriverMore.git_series_mode. Qed.
+Print Assumptions git_series_mode.
+
